@@ -468,14 +468,23 @@ def main(argv=None):
     global _ITEMS
     _ITEMS = (items, args.prop, tier, seed, timeout_s, baseline, findings)
     jobs = int(os.environ.get("VERIF_JOBS", "0")) or min(16, os.cpu_count() or 4)
-    if len(items) > 1 and jobs > 1:
-        import multiprocessing
-        os.environ["VERIF_JOBS_INNER"] = "1"
-        ctx = multiprocessing.get_context("fork")
-        with ctx.Pool(min(jobs, len(items))) as pool:
-            parts = pool.map(_run_item, range(len(items)), chunksize=1)
-    else:
-        parts = [_run_item(i) for i in range(len(items))]
+    limit = int(os.environ.get("VERIF_SPEC_LIMIT_S", "0")) or (300 if tier == "quick" else 1800)
+    import multiprocessing
+    os.environ["VERIF_JOBS_INNER"] = "1"
+    ctx = multiprocessing.get_context("fork")
+    pool = ctx.Pool(max(1, min(jobs, len(items))))
+    asyncs = [pool.apply_async(_run_item, (i,)) for i in range(len(items))]
+    parts = []
+    deadline = time.time() + limit + 30 * len(items) / max(1, jobs)
+    for i, ar in enumerate(asyncs):
+        try:
+            parts.append(ar.get(timeout=max(1.0, deadline - time.time())))
+        except multiprocessing.TimeoutError:
+            p = Report(args.prop, tier, seed)
+            p.undecided.append({"spec": items[i].name, "why": "wall-clock limit of %d s exceeded (solver did not honour its timeout)" % limit})
+            parts.append(p)
+    pool.terminate()
+    pool.join()
     for part in parts:
         merge_report(rep, part)
     extra = getattr(mod, "extra_checks", None)
